@@ -239,4 +239,19 @@ theorem int_le_sq (x : Int) : x ≤ x * x ∧ -x ≤ x * x := by
     · have : x = 0 := by omega
       subst this; simp
 
+/-- the key (squared map distance) of a cell other than the observer's is positive: it never collides with the permanent
+    dummy node's key 0 -/
+theorem key_pos (ew ns : Rat) (vr vc row col : Int) (hew : ew ≠ 0) (hns : ns ≠ 0) (hne : row ≠ vr ∨ col ≠ vc) :
+    0 < key ew ns vr vc row col := by
+  unfold key
+  rcases hne with h | h
+  · have h1 : ((row - vr : Int) : Rat) ≠ 0 := by exact_mod_cast (by omega : row - vr ≠ 0)
+    have : 0 < (((row - vr : Int) : Rat) * ns) * (((row - vr : Int) : Rat) * ns) :=
+      mul_self_pos.mpr (mul_ne_zero h1 hns)
+    nlinarith [mul_self_nonneg (((col - vc : Int) : Rat) * ew)]
+  · have h1 : ((col - vc : Int) : Rat) ≠ 0 := by exact_mod_cast (by omega : col - vc ≠ 0)
+    have : 0 < (((col - vc : Int) : Rat) * ew) * (((col - vc : Int) : Rat) * ew) :=
+      mul_self_pos.mpr (mul_ne_zero h1 hew)
+    nlinarith [mul_self_nonneg (((row - vr : Int) : Rat) * ns)]
+
 end XrsVerif.ViewshedEvents
